@@ -40,6 +40,11 @@ def make_case(rng, fmt):
     def bound(lo=2, hi=20000):
         if lo <= 2 and rng.random() < 0.12:
             return 1.0 if fmt in INTFMT or rng.random() < 0.5 else 0.5     # small positive bounds are bounds, not "unbounded"
+        if rng.random() < 0.3:
+            # round bounds as database files have them (10, 300, 2000, 5500, 1e4, 41000): these are the ones written as 2.d3 / 1d4
+            cand = [v for v in (10, 20, 50, 100, 200, 300, 500, 1000, 2000, 3000, 5000, 5500, 8000, 10000, 20000, 30000, 41000) if lo <= v <= hi]
+            if cand:
+                return float(rng.choice(cand))
         if fmt in INTFMT:
             return float(rng.randint(lo, hi))
         if fmt == "naunet":
@@ -87,17 +92,21 @@ def make_case(rng, fmt):
     if fmt == "krome":
         for r in reacs:
             def enc(v, upper):
-                style = rng.choice(["num", "ops", "ops", "dexp"])      # per bound: primordial.krome mixes `.LE.5.5e3` with `>5.5e3`
+                # number spelling and operator prefix are chosen independently per bound: primordial.krome mixes `.LE.5.5e3`, `>5.5e3`,
+                # `.LE.2.d3` and `.GT.2d3`
                 if v <= 0:
                     return rng.choice(["NONE", "N", ""])
                 s = encode._num(v)
-                if style == "ops":
-                    return rng.choice(["<", ".LE.", ".LT."] if upper else [">", ".GE.", ".GT."]) + s
-                if style == "dexp" and v == int(v) and v >= 10:
+                if rng.random() < 0.5 and v == int(v) and v >= 10:
                     e = len(str(int(v))) - 1
                     m = v / 10 ** e
                     if float(f"{m!r}e{e}") == v:
-                        return f"{m!r}d{e}"
+                        forms = [f"{m!r}d{e}", f"{m!r}e{e}"]
+                        if m == int(m):
+                            forms += [f"{int(m)}.d{e}", f"{int(m)}d{e}", f"{int(m)}.e{e}"]      # Fortran: 2.d3, 2d3
+                        s = rng.choice(forms)
+                if rng.random() < 0.5:
+                    s = rng.choice(["<", ".LE.", ".LT."] if upper else [">", ".GE.", ".GT."]) + s
                 return s
             r["tmin_s"], r["tmax_s"] = enc(r["tmin"], False), enc(r["tmax"], True)
     return {"format": fmt, "reactions": reacs}
